@@ -220,6 +220,15 @@ class LifeGhost(Ghost):
                 else:
                     self.ended_np.append((key, None))
 
+            # an incarnation that was created and ended inside this step never shows in `before`
+            for key in [k for k in self.np if k not in a]:
+                self.np.pop(key)
+            live = self.mailbox_keys(r.after)
+            for key in [k for k in self.mb if k not in live]:
+                self.mb.pop(key)
+            for key in [k for k in self.logs if k not in live]:
+                self.logs.pop(key)
+
     def _life_facts(self, r, pre):
         if r.kind == "cmd" and r.exc is None and pre[0] is not None:
             app, side, claim_name, open_mid = pre
